@@ -14,7 +14,12 @@ RULE = ('dynreg: a generated universe of packages / modules / classes (with meth
         'files, the reserved name gin, late / aliased / unknown __gin__ features), bindings, blocks and references through '
         'dotted names in every order of first use. Independent predicates: the registered object is the very object the '
         'attribute chain denotes, different spellings reach one configurable, names not provided by the file itself are '
-        'NameErrors, and config_str() re-parsed in a fresh gin configures the same objects with the same values. '
+        'NameErrors, and config_str() re-parsed in a fresh gin configures the same objects with the same values; the emitted '
+        'text is also read by the harness\'s own reader and resolver (Python\'s binding rules on its import lines, attributes '
+        'followed in the universe): its imports bind distinct names and every emitted selector / reference denotes the very '
+        'object. Family plain-import-loses-its-name (18% of the cases + 3 corpus cases): a plain "import a.b" and 1-2 rivals '
+        'binding the name a in other texts through "as" or "from x import a", sorting before or after it, with look-alike '
+        'attribute paths below the rival. '
         'non-trivial = two texts binding one object through different import spellings, or a method configured after its '
         'class was referenced. Second engine scoped-refs (implementation only): references - scoped or not, evaluated or not, '
         'bare or in containers - written before / after the statements that configure methods of their target class (each '
@@ -36,10 +41,15 @@ UNIVERSE = {
     'pkga.v1': {}, 'pkga.v1.models': {'funcs': ['build'], 'classes': {}},
     'pkga.v2': {}, 'pkga.v2.models': {'funcs': ['build'], 'classes': {}},
     'pkga.deep': {}, 'pkga.deep.mod': {'funcs': ['f'], 'classes': {}},
-    'Zmod': {'funcs': ['zq'], 'classes': {}},         # an upper-case module name sorts before '__gin__'
+    'Zmod': {'funcs': ['zq', 'g'], 'classes': {}},    # an upper-case module name sorts before '__gin__' (g: a look-alike of top.g)
     'Pkg': {}, 'Pkg.dynamic_registration': {'funcs': ['pf'], 'classes': {}},     # binds the NAME dynamic_registration
     'zeta': {'funcs': ['zf'], 'classes': {}}, 'alpha': {}, 'alpha.tools': {'funcs': ['af'], 'classes': {}},
     'beta': {}, 'beta.tools': {'funcs': ['bf'], 'classes': {}},
+    # modules whose LAST component is the name of a top-level package / module of the universe: 'from Pkg import pkgb' and
+    # 'from alpha import top' bind the very name a plain 'import pkgb.util' / 'import top' binds, and sort before it; each
+    # carries look-alikes (same attribute path below the bound name, another object) and a leaf of its own
+    'Pkg.pkgb': {'funcs': ['pq']}, 'Pkg.pkgb.util': {'funcs': ['f', 'pu'], 'classes': {}},
+    'alpha.top': {'funcs': ['g', 'aq'], 'classes': {}},
 }
 PRE = ['zeta.zf', 'alpha.tools.af', 'beta.tools.bf']      # registered from Python (gin.register), never imported by a config
 
@@ -138,12 +148,16 @@ IMPORTS = [
     ['import', 'pkga.v1.models', False, None], ['import', 'pkga.v2.models', True, None], ['import', 'pkga.v2.models', False, 'm2'],
     ['import', 'Zmod', False, None], ['import', 'Zmod', False, 'zm'],
     ['import', 'Pkg.dynamic_registration', True, None], ['import', 'Pkg.dynamic_registration', True, 'pdr'],
+    # bound names that are the top-level name a PLAIN import of another module binds (through 'from' and through 'as')
+    ['import', 'Pkg.pkgb', True, None], ['import', 'alpha.top', True, None], ['import', 'Zmod', False, 'top'],
+    ['import', 'Zmod', False, 'pkga'], ['import', 'pkga.deep.mod', True, 'pkgb'], ['import', 'pkgc.util', False, 'pkga'],
 ]
 GIN_IMPORT = ['import', 'gin.config', False, None]     # legal in a file WITHOUT the feature; binds the name gin
 LEAVES = {'pkga.util': ['f', 'g', 'C', 'C.meth', 'C.Inner', 'nope'], 'pkgb.util': ['f', 'C', 'C.meth', 'C.meth2'], 'top': ['g', 'h', 'tg', 'g', 'tg'],
           # '^...': an absolute dotted name through the package root, reachable only through a plain 'import a.b.c'
           'pkga.v1.models': ['build', '^pkga.v2.models.build', '^pkga.v1.models.build'], 'pkga.v2.models': ['build'],
-          'pkgc.util': ['f'], 'Zmod': ['zq'], 'Pkg.dynamic_registration': ['pf'],
+          'pkgc.util': ['f'], 'Zmod': ['zq', 'g'], 'Pkg.dynamic_registration': ['pf'],
+          'Pkg.pkgb': ['pq', 'util.f', 'util.pu'], 'alpha.top': ['g', 'aq'],
           'pkga.deep.mod': ['f'], 'pkga': ['util.f', 'util.C', 'deep.mod.f']}
 
 
@@ -165,6 +179,57 @@ def selector_for(imp, leaf):
   if alias or is_from:
     return bound(imp) + '.' + leaf
   return module + '.' + leaf
+
+
+def reg_names(imp, sel):
+  """(universe path, selector gin registers it under) of the dotted name `sel` spelled through the import `imp`: the path
+  follows Python's binding rule, the registered selector is the import's module path with the alias as its last component"""
+  _, module, is_from, alias = imp
+  first, _, rest = sel.partition('.')
+  base = module if (is_from or alias) else module.split('.')[0]
+  part = '.'.join(module.split('.')[:-1] + [alias]) if alias else base
+  return base + ('.' + rest if rest else ''), part + ('.' + rest if rest else '')
+
+
+def drop_selector_clashes(calls, pre=()):
+  """removes the statements that would register an object under a selector another object of the case is (or may be)
+  registered under - 'import Zmod as top' registers Zmod.g as 'top.g', the selector of the module top's own g; the
+  ValueError of the second registration is not what this engine judges (findings/r5/C19-alias-selector-clash.py)"""
+  owner = {}
+  taken = [p.partition('@')[2] for p in pre if '@' in p]      # registered from Python under a chosen selector
+  out = []
+  for stmts in calls:
+    table, keep = {}, []
+    for st in stmts:
+      if st[0] == 'import':
+        table[bound(st)] = st
+        keep.append(st)
+        continue
+      names = [st[2]] + ([st[4][1]] if st[0] == 'bind' and not isinstance(st[4], int) else [])
+      clash = False
+      for n in names:
+        imp = table.get(n.partition('.')[0])
+        if imp is None:
+          continue
+        path, regsel = reg_names(imp, n)
+        if owner.setdefault(regsel, path) != path or (regsel != path and any((regsel + '.').startswith(t + '.') for t in taken)):
+          clash = True
+      if not clash:
+        keep.append(st)
+    out.append(keep)
+  return out
+
+
+# the family "a PLAIN import loses its bound name": module of the plain import -> leaves that exist
+PLAIN = {'pkga.util': ['f', 'g', 'C', 'C.meth', 'C.Inner'], 'pkgb.util': ['f', 'C', 'C.meth', 'C.meth2'], 'top': ['g', 'h', 'tg'],
+         'pkga.deep.mod': ['f'], 'pkga': ['util.f', 'util.C', 'deep.mod.f'], 'pkgc.util': ['f'],
+         'pkga.v1.models': ['build', '^pkga.v2.models.build'], 'alpha.top': ['g', 'aq'], 'Pkg.pkgb': ['pq', 'util.f', 'util.pu']}
+# modules whose last component is a top-level name: 'from <parent> import <name>' binds it without an alias
+NATURAL = {'top': ['alpha.top'], 'pkgb': ['Pkg.pkgb']}
+RIVALS = ['Zmod', 'Pkg.dynamic_registration', 'Pkg.pkgb', 'Pkg.pkgb.util', 'alpha.top', 'pkga.deep.mod', 'pkga.util', 'pkgb.util',
+          'pkgc.util', 'pkga.v2.models', 'top']
+RIVAL_LEAVES = dict(LEAVES, **{'Pkg.pkgb.util': ['f', 'pu'], 'pkga.util': ['f', 'g', 'C', 'C.meth', 'C.Inner'],
+                               'pkga.v2.models': ['build'], 'top': ['g', 'h', 'tg']})
 
 
 def render(stmts):
@@ -235,9 +300,72 @@ class DynEngine(Engine):
         # one module recorded under two aliases and without one
         [[DYN, ['import', 'pkgb.util', False, 'u'], ['import', 'pkgb.util', False, 'u2'], ['import', 'pkgb.util', False, None],
           ['bind', '', 'u2.f', 'x', 1], ['bind', '', 'pkgb.util.f', 'y', 2], ['bind', 's1', 'u.f', 'x', 3]]],
+        # a PLAIN import loses its bound name to an import of another text that sorts before it: 'from Pkg import pkgb'
+        # keeps pkgb, 'import pkgb.util' is emitted with an alias and everything reached through it is spelled through that
+        # alias (Pkg.pkgb.util.f is a look-alike: the same attribute path below the other text's pkgb, another function)
+        [[DYN, ['import', 'Pkg.pkgb', True, None], ['bind', '', 'pkgb.pq', 'x', 1]],
+         [DYN, ['import', 'pkgb.util', False, None], ['bind', '', 'pkgb.util.f', 'x', 2]],
+         [DYN, ['import', 'pkgb.util', False, None], ['bind', 's1', 'pkgb.util.f', 'y', 3]]],
+        # ... to an alias of another text ('import Zmod as top' sorts before 'import top'; Zmod.g is a look-alike of top.g)
+        [[DYN, ['import', 'top', False, None], ['bind', '', 'top.g', 'x', 2], ['bind', 's1', 'top.h', 'r', [[], 'top.g']]],
+         [DYN, ['import', 'Zmod', False, 'top'], ['bind', '', 'top.zq', 'x', 1]]],
+        # ... a method and its class reached through the plain import that loses; the plain import of a dotted module two
+        # rivals bind the top-level name of (one sorts before, one after it)
+        [[DYN, ['import', 'pkga.deep.mod', True, 'pkgb'], ['bind', '', 'pkgb.f', 'x', 1]],
+         [DYN, ['import', 'pkgb.util', False, None], ['bind', '', 'pkgb.util.C.meth', 'y', 3], ['bind', 's1', 'pkgb.util.C', 'x', 2]],
+         [DYN, ['import', 'top', False, 'pkgb'], ['bind', '', 'pkgb.h', 'r', [[], 'pkgb.g']]]],
     ]
 
   def gen(self, rng, tier):
+    case = self.gen_plain_loses(rng) if rng.random() < 0.18 else self.gen_mixed(rng, tier)
+    if isinstance(case, dict):
+      return dict(case, calls=drop_selector_clashes(case['calls'], case.get('pre', [])))
+    return drop_selector_clashes(case)
+
+  def gen_plain_loses(self, rng):
+    """Two to four texts (each its own parse call) whose imports bind ONE name: a PLAIN 'import a.b' (it binds the
+    top-level name a) and 1-2 rivals binding the same name through 'as' or through a 'from' import of a module called a;
+    whichever module sorts later loses the name in the config string.  Every text configures objects through its own
+    spelling (integers, references among its own objects, blocks, methods)."""
+    module = rng.choice(sorted(PLAIN))
+    plain = ['import', module, False, None]
+    name = module.split('.')[0]
+    rivals = []
+    for _ in range(rng.choice([1, 1, 1, 2])):
+      if name in NATURAL and rng.random() < 0.5:
+        rv = ['import', rng.choice(NATURAL[name]), True, None]
+      else:
+        m = rng.choice([r for r in RIVALS if r != module])
+        rv = ['import', m, '.' in m and rng.random() < 0.5, name]
+      if rv[1] != module and rv not in rivals:
+        rivals.append(rv)
+
+    def body(imp, leaves, n):
+      out = []
+      for _ in range(n):
+        sel = selector_for(imp, rng.choice(leaves))
+        scope = rng.choice(['', '', 's1'])
+        r = rng.random()
+        if r < 0.6:
+          out.append(['bind', scope, sel, rng.choice(['x', 'y']), rng.randint(1, 9)])
+        elif r < 0.85:
+          out.append(['bind', scope, sel, 'r', [[], selector_for(imp, rng.choice(leaves))]])
+        else:
+          out.append(['block', scope, sel])
+      return out
+    calls = [[DYN, plain] + body(plain, PLAIN[module], rng.randint(1, 3))]
+    for rv in rivals:
+      calls.append([DYN, rv] + body(rv, RIVAL_LEAVES[rv[1]], rng.randint(0, 2)))
+    if rng.random() < 0.35:           # the plain import once more, in another text (a reference to what the first configured)
+      calls.append([DYN, plain] + body(plain, PLAIN[module], rng.randint(1, 2)))
+    if rng.random() < 0.3:            # ... and the same module through a spelling that keeps / gets another name
+      other = ['import', module, '.' in module and rng.random() < 0.5, rng.choice([None, 'u', name])]
+      if other[2] or other[3]:
+        calls.append([DYN, other] + body(other, PLAIN[module], rng.randint(1, 2)))
+    rng.shuffle(calls)
+    return calls
+
+  def gen_mixed(self, rng, tier):
     calls = []
     used = []
     for _ in range(rng.randint(1, 3)):
@@ -296,6 +424,28 @@ class DynEngine(Engine):
         calls.append([['bind', rng.choice(['', 's1']), p, 'x', rng.randint(1, 9)]])
       return {'pre': pre, 'calls': calls}
     return calls
+
+  @staticmethod
+  def read_emitted(lines):
+    """(import statements, [(scope, dotted name, parameter, int | ('ref', dotted name))]) of a config string, or None when a
+    line is none of: blank, comment, import, a one-line binding of an integer or of one reference"""
+    import re  # pylint: disable=g-import-not-at-top
+    imps, binds = [], []
+    for l in lines:
+      if not l.strip() or l.startswith('#'):
+        continue
+      m = re.match(r'^(?:from ([\w.]+) )?import ([\w.]+)(?: as (\w+))?$', l)
+      if m:
+        if m.group(1) == '__gin__':
+          continue
+        imps.append(['import', (m.group(1) + '.' if m.group(1) else '') + m.group(2), bool(m.group(1)), m.group(3)])
+        continue
+      m = re.match(r'^((?:[\w.]+/)*)([\w.]+)\.(\w+) = (?:(-?\d+)|@((?:[\w.]+/)*)([\w.]+)(\(\))?)$', l)
+      if not m:
+        return None
+      binds.append((m.group(1).rstrip('/'), m.group(2), m.group(3),
+                    int(m.group(4)) if m.group(4) is not None else ('ref', m.group(6))))
+    return imps, binds
 
   @staticmethod
   def norm(case):
@@ -490,6 +640,48 @@ class DynEngine(Engine):
             fails.append(('config-str-selectors-resolve-elsewhere', 'text %r: original %r, re-parsed %r' % (text, sorted(map(str, ok_store.items())), sorted(map(str, st2.items())))))
         except Exception as e:  # pylint: disable=broad-except
           fails.append(('config-str-does-not-parse', '%s: %s; text %r' % (type(e).__name__, str(e)[:200], text)))
+      # (7) the emitted text read by the harness's OWN reader and resolver (Python's binding rules on the text's import
+      # lines, attributes followed in the universe; gin's parser and resolver take no part): the imports bind distinct
+      # names, never 'gin', and every selector - of a binding and of a reference - denotes the very object that binding /
+      # reference belongs to in the configuration
+      if all_ok and text and any_dyn and 'from __gin__ import dynamic_registration' in lines:
+        emitted = self.read_emitted(lines)
+        if emitted is None:
+          tags.append('emitted-not-read')
+        else:
+          e_imps, e_binds = emitted
+          names = [bound(i) for i in e_imps]
+          dup = sorted({n for n in names if names.count(n) > 1})
+          if dup or 'gin' in names:
+            fails.append(('config-str-imports-collide', 'the emitted imports bind %r more than once / bind gin: %r' % (dup, imps)))
+          table = {bound(i): i for i in e_imps}
+
+          def denotes(sel):
+            imp = table.get(sel.partition('.')[0])
+            return w.objs.get(reg_names(imp, sel)[0]) if imp else None
+          got, bad = {}, []
+          for scope, sel, param, val in e_binds:
+            o = denotes(sel)
+            if o is None:
+              bad.append(sel)
+              continue
+            if isinstance(val, int):
+              got[(scope, id(o), param)] = val
+            else:
+              ro = denotes(val[1])
+              if ro is None:
+                bad.append(val[1])
+                continue
+              got[(scope, id(o), param)] = ('ref', id(ro))
+          want = {k: v for k, v in ok_store.items() if not (isinstance(v, tuple) and v[0] == 'placeholder')}
+          if bad:
+            fails.append(('config-str-selector-denotes-nothing', 'under the emitted imports %r the emitted names %r denote no object '
+                          'of the universe; text %r' % (imps, sorted(set(bad)), text)))
+          elif got != want:
+            name_of = {id(o): p for p, o in w.objs.items()}
+            show = lambda d: sorted((k[0], name_of.get(k[1], '?'), k[2], v if isinstance(v, int) else name_of.get(v[1], '?')) for k, v in d.items())
+            fails.append(('config-str-selector-denotes-other-object', 'read through its own imports the emitted text configures %r, '
+                          'the configuration is %r; text %r' % (show(got), show(want), text)))
       # (3) a text whose every name is provided by its own imports and exists in the universe is accepted
       from harness import findings  # pylint: disable=g-import-not-at-top
       for ci, stmts in enumerate(case):
@@ -592,7 +784,7 @@ class DynEngine(Engine):
     finally:
       w.close()
     return {'obs': obs, 'fails': fails[:3], 'nontrivial': multi or any('meth' in str(st) for c in case for st in c),
-            'tags': ['calls%d' % len(case)] + ['err' if isinstance(o, T) else 'ok' for o in obs[:len(case)]]}
+            'tags': ['calls%d' % len(case)] + ['err' if isinstance(o, T) else 'ok' for o in obs[:len(case)]] + tags}
 
 
 # ----------------------------------------------------------------------------------------------------------------------
